@@ -245,6 +245,11 @@ func (vm *VM) generalIndirect(r int8) reflect.Value {
 	if elem.Kind() == reflect.Func {
 		return reflect.ValueOf(&callable{native: NewNativeFunction("", "", elem)})
 	}
+	if elem.Kind() == reflect.Interface {
+		// As in direct registers, an interface value is represented by its
+		// dynamic value, and the nil interface by the invalid Value.
+		return elem.Elem()
+	}
 	return elem
 }
 
